@@ -93,6 +93,15 @@ def check_case(case):
     if not o.ok:
         return out.fail('encode raised %s@%s' % (o.exc_type, o.frame), error=o.msg)
     produced = o.value.serialized_bytes
+    if int(case.key()[6:8], 16) % 8 == 0:
+        # with debug logging switched on (--debug) the encoder reads its values from audited lists: the same bytes
+        out.classes = sorted(set(out.classes) | {'also_with_debug_logging'})
+        with sut.debug_logging():
+            og = sut.call(encoder().process, arg)
+        if not og.ok:
+            return out.fail('debug logging on: encode raised %s@%s' % (og.exc_type, og.frame), error=og.msg)
+        if og.value.serialized_bytes != produced:
+            return out.fail('debug logging on: the encoder writes other bytes', n_got=len(og.value.serialized_bytes), n=len(produced))
     if not case.compressed:
         if produced != case.bytes:
             k = next((i for i, (a, b) in enumerate(zip(produced, case.bytes)) if a != b), min(len(produced), len(case.bytes)))
